@@ -8,6 +8,7 @@ vc: Compiler.set_link_address (single assignment, address-conflict, recursive-de
 rac: link expressions K + sum k_i*(L_i - L_j), through intermediate symbols, assembled by the real assembler (testing, separate)
 """
 import itertools
+import os
 import z3
 from contracts.common import *  # noqa
 from contracts import common, deferred_c, compiler_c, meta_c
@@ -50,6 +51,9 @@ def unit_rac(eng):
         ("x = e\ny = s + 2\n.link 2000 - x + y\nnop\ns: nop\nnop\ne: nop\n", 0o1776),
         # the directive at offset 0 behind a label at offset 0 (the label's address is the bare base promise)
         ("start: .link 2000 + end - start\n.word 1\nend: .word 2\n", 0o2002), ("start: . = 2000 + 2*<end - start>\n.word 1\nend: .word 2\n", 0o2004),
+        # an alias that applies '/' or '>>' to a label difference, defined above every label, one label before the directive and one after it
+        ("half = (fin - beg) / 2\nbeg:\n.link 2000 + half\n.word 1, 2\nfin:\n", 0o2002), ("q = <fin - beg> >> 1\nbeg:\n.link 3000 + 3*q\n.word 1, 2\nfin:\n", 0o3006),
+        ("h = (fin - beg) / 2\nbeg:\n. = 2000 + h\n.word 1, 2, 3, 4\nfin:\n", 0o2004),
         # labels in other files, directly and through aliases (D50), aliases of aliases, the directive in the second file
         ((".link 2000 + e - s\ns: .word 1\n", ".word 2\ne::\n"), 0o2004), ((".link 2000 + x - s\ns: .word 1\nx = e\n", ".word 2\ne::\n"), 0o2004),
         ((".link 2000 + x - s\ns: .word 1\nx = y\ny = e\n", ".word 2\ne::\n"), 0o2004), (("x = e\n.link 2000 + x - s\ns: .word 1\n", ".word 2\ne::\n"), 0o2004),
@@ -133,12 +137,26 @@ def replay(o, tree):
     if (o.get("cfg") or {}).get("kind") == "promise-pending":
         return deferred_c.replay_promise_pending(tree)
     if (o.get("cfg") or {}).get("kind") == "poly-scalar":
-        return deferred_c.replay_poly_scalar(o["cfg"], tree)
+        return deferred_c.replay_poly_scalar(o["cfg"], tree, o.get("witness"))
     if (o.get("cfg") or {}).get("kind") == "poly-mul":
         return deferred_c.replay_poly_mul(o["cfg"], o.get("witness") or {}, tree)
-    if (o.get("cfg") or {}).get("kind") == "linkfiles":
-        from contracts import c02
-        return c02.replay(o, tree)
+    if (o.get("cfg") or {}).get("kind") in ("linkfiles", "rac"):
+        # the link corpus on that tree: the failing programs are the input
+        old = os.environ.get("PDPY11_SRC")
+        os.environ["PDPY11_SRC"] = tree
+        try:
+            ob_ = unit_rac(None)["obligations"][0]
+        finally:
+            if old is None:
+                os.environ.pop("PDPY11_SRC", None)
+            else:
+                os.environ["PDPY11_SRC"] = old
+        if ob_["status"] == "failed":
+            return dict(jobs=None, experiment="C12 link corpus (contracts/c12.py unit_rac)", observed=ob_["detail"][:700], reproduced=True)
+        if (o.get("cfg") or {}).get("kind") == "linkfiles":
+            from contracts import c02
+            return c02.replay(o, tree)
+        return None
     if "late binding" in label:
         from contracts import c02
         return c02.replay(o, tree)
